@@ -443,7 +443,17 @@ class TimeTriggeredPlanValidator(engines.engine.Engine, mixins.PlanValidatorMixi
                     )
                 g_value = self._ground_expression(instantiated_effect.value, ai)
                 if instantiated_effect.kind == EffectKind.ASSIGN:
-                    result[g_fluent] = se.evaluate(g_value, state=state)
+                    new_value = se.evaluate(g_value, state=state)
+                    old_value = result.get(g_fluent, None)
+                    if old_value is None:
+                        result[g_fluent] = new_value
+                    elif g_fluent.type.is_bool_type():
+                        # instances of a quantified effect that reach the same fluent:
+                        # "delete before add", as in the sequential semantics
+                        if new_value.bool_constant_value():
+                            result[g_fluent] = new_value
+                    elif old_value.constant_value() != new_value.constant_value():
+                        raise UPConflictingEffectsException("Double effect")
                 else:
                     # the instances of a quantified effect that reach the same fluent
                     # accumulate, as do the other effects applied at this instant
